@@ -454,6 +454,13 @@ class cleanup_functools_wrapper(object):
             for attr in self.attrs:
                 try:
                     value = getattr(self.func, attr)
+                    try:
+                        # what delattr removes: for a class attribute that is
+                        # a descriptor (as_forged), the descriptor itself, not
+                        # what it computed
+                        value = vars(self.func)[attr]
+                    except (TypeError, KeyError):
+                        pass
                     delattr(self.func, attr)
                 except (AttributeError, TypeError):
                     # TypeError: attributes of builtin types can't be deleted
